@@ -470,7 +470,7 @@ class _SymSeqStr(SymBase):
         return f"{type(self).__name__}({self.t.s})"
 
     def _ok(self, o):
-        return isinstance(o, (type(self), self._pytype))
+        return isinstance(o, (SymStr, str))
 
     def __bool__(self):
         return cur().fork(tm.Ne(self.t, tm.mk_str("")))
@@ -570,6 +570,17 @@ class SymStr(_SymSeqStr):
         return wrap_str(tm.Ite(tm.SuffixOf(pt, self.t),
                                tm.Substr(self.t, tm.mk_int(0), tm.Sub(tm.Len(self.t), tm.Len(pt))),
                                self.t))
+
+    def split(self, sep=None, maxsplit=-1):
+        if sep is None or maxsplit != 1:
+            raise Unsupported("str.split: only split(sep, maxsplit=1)")
+        st = S(sep)
+        idx = tm.IndexOf(self.t, st, tm.mk_int(0))
+        if cur().fork(tm.Lt(idx, tm.mk_int(0))):
+            return [self]
+        n = tm.Len(self.t)
+        return [wrap_str(tm.Substr(self.t, tm.mk_int(0), idx)),
+                wrap_str(tm.Substr(self.t, tm.Add(idx, tm.Len(st)), n))]
 
     def __fspath__(self):
         raise Unsupported("os.fspath on a symbolic string must go through the override")
